@@ -117,6 +117,9 @@ pub enum Cmd {
     Both { out: Payload, err: Payload },
     /// Cram only: prints look-alike divider lines for itself and every later test, then `exit`
     Forge { exit_with: u8 },
+    /// Markdown only. on: `<chunks>; set -x|-v` then `exit N`; off: `set +x|+v; <chunks>`.
+    /// The trace of the user's own `exit N` / `set +x` is part of what the command wrote.
+    Trace { flag: String, on: bool, chunks: Vec<Chunk> },
 }
 
 #[derive(Clone, Debug, PartialEq, Serialize, Deserialize)]
@@ -158,13 +161,18 @@ fn crlf_to_lf(b: &[u8]) -> Vec<u8> {
     out
 }
 
-/// removes well-formed CSI sequences `ESC [ params intermediates final`
-fn strip_csi(b: &[u8]) -> Vec<u8> {
-    let mut out = Vec::with_capacity(b.len());
-    let mut i = 0;
-    while i < b.len() {
-        if b[i] == 0x1b && i + 1 < b.len() && b[i + 1] == b'[' {
-            let mut j = i + 2;
+/// length of the well-formed ECMA-48 escape sequence that starts at `b[0] == ESC`, if any:
+///   CSI  ESC [ params(0x30-0x3F)* intermediates(0x20-0x2F)* final(0x40-0x7E)
+///   OSC  ESC ] text(no C0)* terminated by BEL or ST (ESC \)
+///   nF   ESC intermediates(0x20-0x2F)+ final(0x30-0x7E)
+///   two-byte sequences ESC final(0x30-0x7E), except the string openers P X ^ _ (not generated)
+fn escape_sequence_len(b: &[u8]) -> Option<usize> {
+    if b.len() < 2 || b[0] != 0x1b {
+        return None;
+    }
+    match b[1] {
+        b'[' => {
+            let mut j = 2;
             while j < b.len() && (0x30..=0x3f).contains(&b[j]) {
                 j += 1;
             }
@@ -172,7 +180,48 @@ fn strip_csi(b: &[u8]) -> Vec<u8> {
                 j += 1;
             }
             if j < b.len() && (0x40..=0x7e).contains(&b[j]) {
-                i = j + 1;
+                Some(j + 1)
+            } else {
+                None
+            }
+        }
+        b']' => {
+            let mut j = 2;
+            while j < b.len() {
+                match b[j] {
+                    0x07 => return Some(j + 1),
+                    0x1b if b.get(j + 1) == Some(&b'\\') => return Some(j + 2),
+                    c if c < 0x20 || c == 0x7f => return None,
+                    _ => j += 1,
+                }
+            }
+            None
+        }
+        0x20..=0x2f => {
+            let mut j = 2;
+            while j < b.len() && (0x20..=0x2f).contains(&b[j]) {
+                j += 1;
+            }
+            if j < b.len() && (0x30..=0x7e).contains(&b[j]) {
+                Some(j + 1)
+            } else {
+                None
+            }
+        }
+        b'P' | b'X' | b'^' | b'_' => None,
+        0x30..=0x7e => Some(2),
+        _ => None,
+    }
+}
+
+/// removes every well-formed escape sequence; every other byte stays
+fn strip_csi(b: &[u8]) -> Vec<u8> {
+    let mut out = Vec::with_capacity(b.len());
+    let mut i = 0;
+    while i < b.len() {
+        if b[i] == 0x1b {
+            if let Some(n) = escape_sequence_len(&b[i..]) {
+                i += n;
                 continue;
             }
         }
@@ -182,20 +231,18 @@ fn strip_csi(b: &[u8]) -> Vec<u8> {
     out
 }
 
-/// With `strip_ansi_escaping` the statement only promises: CSI sequences go, text stays.
-/// Payloads are judged exactly only if they consist of valid UTF-8 text, LF, CRLF pairs
-/// that the CRLF transform removes first, and well-formed CSI sequences.
+/// With `strip_ansi_escaping` the statement promises: ANSI escape sequences go, nothing else does.
+/// A payload is judged exactly if it is valid UTF-8 without C1 controls in which every ESC starts a
+/// well-formed sequence; TAB, CR and the other C0 controls outside sequences must survive.
 fn strip_judgeable(raw: &[u8], keep: bool) -> bool {
     let b = if keep { raw.to_vec() } else { crlf_to_lf(raw) };
-    if std::str::from_utf8(&b).is_err() {
+    let Ok(text) = std::str::from_utf8(&b) else {
+        return false;
+    };
+    if text.chars().any(|c| (0x80..0xa0).contains(&(c as u32))) {
         return false;
     }
-    let s = strip_csi(&b);
-    s.iter().all(|c| *c == b'\n' || *c >= 0x20 && *c != 0x7f) && !s.windows(2).any(|w| w == [0xc2, 0x9b]) && {
-        // no C1 controls (U+0080..U+009F) which the terminal parser may interpret
-        let t = String::from_utf8_lossy(&s);
-        !t.chars().any(|c| (0x80..0xa0).contains(&(c as u32)))
-    }
+    !strip_csi(&b).contains(&0x1b)
 }
 
 fn transform(raw: &[u8], keep: bool, strip: bool) -> Vec<u8> {
@@ -242,7 +289,7 @@ fn diff_cause(raw: &[u8], expected: &[u8], got: &[u8], keep: bool, strip: bool) 
     }
     let e = byte_class(expected.get(p));
     let g = byte_class(got.get(p));
-    let trigger = |x: &str| x == "cr" || x == "esc";
+    let trigger = |x: &str| x == "cr" || x == "esc" || (strip && matches!(x, "tab" | "ctl" | "nul"));
     let mut c = if trigger(e) {
         format!("lost:{e}")
     } else if trigger(g) {
@@ -261,7 +308,7 @@ fn diff_cause(raw: &[u8], expected: &[u8], got: &[u8], keep: bool, strip: bool) 
     if keep && find_bytes(raw, b"\r\n").is_some() {
         c.push_str("[keep_crlf]");
     }
-    if strip && raw.contains(&0x1b) {
+    if strip {
         c.push_str("[strip]");
     }
     (p, c)
@@ -538,7 +585,7 @@ fn gen_case(tier: Tier, k: u64, rng: &mut Rng) -> Case {
         case.tests = vec![T { cmd: Cmd::Chunks { chunks: vec![Chunk { fd: 1, data: p }] }, code: 0, ifs: None }];
         return case;
     }
-    let fam = rng.weighted(&[22, 8, 26, 18, 12, 4, 5, 3, 2, 6, 14]);
+    let fam = rng.weighted(&[22, 8, 26, 18, 12, 4, 5, 3, 2, 6, 14, 10, 8]);
     match fam {
         0 => {
             case.family = "render-direct".into();
@@ -687,6 +734,94 @@ fn gen_case(tier: Tier, k: u64, rng: &mut Rng) -> Case {
                 case.tests.push(T { cmd, code, ifs });
             }
         }
+        11 => {
+            // strip_ansi_escaping on text with C0 controls and real escape sequences: only the
+            // sequences may go
+            case.strip = Some(true);
+            let which = rng.below(5);
+            let payload = |rng: &mut Rng, keep: bool| {
+                let mut p = Payload::default();
+                for _ in 0..rng.range(1, 5) {
+                    let piece: Vec<u8> = match rng.below(9) {
+                        0 => b"a\tb\tc\n".to_vec(),
+                        1 => {
+                            if keep {
+                                b"crlf kept\r\n".to_vec()
+                            } else {
+                                b"lone\rcr\n".to_vec()
+                            }
+                        }
+                        2 => b"progress 10%\rprogress 100%\n".to_vec(),
+                        3 => b"bell\x07 bs\x08 ff\x0c vt\x0b\n".to_vec(),
+                        4 => b"nul\x00 del\x7f so\x0e\n".to_vec(),
+                        5 => {
+                            let mut l = rng.pick(CSI).to_vec();
+                            l.extend_from_slice(b"col\toured");
+                            l.extend_from_slice(*rng.pick(CSI));
+                            l.push(b'\n');
+                            l
+                        }
+                        6 => rng.pick(&[&b"\x1b]0;window title\x07after\tosc\n"[..], b"\x1b]2;t\x1b\\after st\r\n", b"\x1b]8;;http://x\x07link\x1b]8;;\x07\n"]).to_vec(),
+                        7 => rng.pick(&[&b"\x1b7saved\x1b8\n"[..], b"\x1b(Bcharset\n", b"\x1b=keypad\x1b>\n", b"\x1bMri\x1bc\n"]).to_vec(),
+                        _ => {
+                            let mut l = text_line(rng);
+                            l.push(b'\n');
+                            l
+                        }
+                    };
+                    p.push(&piece, 1);
+                }
+                p
+            };
+            let keep = case.keep_crlf == Some(true);
+            match which {
+                0 | 1 => {
+                    case.family = "strip-c0-render".into();
+                    case.mode = "render".into();
+                    case.tests = vec![T { cmd: Cmd::Chunks { chunks: vec![Chunk { fd: 1, data: payload(rng, keep) }] }, code: 0, ifs: None }];
+                }
+                2 | 3 => {
+                    case.family = "strip-c0-markdown".into();
+                    for _ in 0..rng.range(1, 2) {
+                        let chunks = vec![Chunk { fd: 1, data: payload(rng, keep) }, Chunk { fd: 2, data: payload(rng, keep) }];
+                        case.tests.push(T { cmd: Cmd::Chunks { chunks }, code: gen_code(rng), ifs: None });
+                    }
+                }
+                _ => {
+                    case.family = "strip-c0-cram".into();
+                    case.mode = "cram".into();
+                    for _ in 0..rng.range(1, 2) {
+                        let chunks = vec![Chunk { fd: 1, data: payload(rng, keep) }, Chunk { fd: 2, data: payload(rng, keep) }];
+                        case.tests.push(T { cmd: Cmd::Chunks { chunks }, code: gen_code(rng), ifs: None });
+                    }
+                }
+            }
+        }
+        12 => {
+            // `set -x` / `set -v` in one Markdown test, switched off first thing in the next one:
+            // only the trace of the user's own commands belongs to the recorded stderr
+            case.family = "trace-markdown".into();
+            case.strip = None;
+            case.keep_crlf = None;
+            let flag = if rng.chance(2, 3) { "x" } else { "v" };
+            let small = |rng: &mut Rng| {
+                let mut v = vec![];
+                for _ in 0..rng.range(0, 2) {
+                    let mut l = text_line(rng);
+                    l.push(b'\n');
+                    v.push(Chunk { fd: 1 + rng.below(2) as u8, data: Payload::lit(&l) });
+                }
+                v
+            };
+            if rng.bool() {
+                case.tests.push(T { cmd: Cmd::Chunks { chunks: small(rng) }, code: gen_code(rng), ifs: None });
+            }
+            case.tests.push(T { cmd: Cmd::Trace { flag: flag.into(), on: true, chunks: small(rng) }, code: gen_code(rng), ifs: None });
+            case.tests.push(T { cmd: Cmd::Trace { flag: flag.into(), on: false, chunks: small(rng) }, code: gen_code(rng), ifs: None });
+            if rng.bool() {
+                case.tests.push(T { cmd: Cmd::Chunks { chunks: small(rng) }, code: gen_code(rng), ifs: None });
+            }
+        }
         _ => {
             // render_output on larger inputs, in-process
             case.family = "render-direct-large".into();
@@ -795,6 +930,35 @@ fn build(t: &T, idx: usize, n_tests: usize, case: &Case, dirs: &Dirs) -> std::io
             out = o.bytes();
             err = e.bytes();
         }
+        Cmd::Trace { flag, on, chunks } => {
+            let verbose = flag == "v";
+            if !*on {
+                lines.push(format!("set +{flag}"));
+                let tr = if verbose { format!("set +{flag}\n") } else { format!("+ set +{flag}\n") };
+                err.extend_from_slice(tr.as_bytes());
+                merged.extend_from_slice(tr.as_bytes());
+            }
+            for (j, c) in chunks.iter().enumerate() {
+                let f = write(format!("t{idx}c{j}"), &c.data)?;
+                let b = c.data.bytes();
+                merged.extend_from_slice(&b);
+                if c.fd == 2 {
+                    lines.push(format!("cat {f} >&2"));
+                    err.extend_from_slice(&b);
+                } else {
+                    lines.push(format!("cat {f}"));
+                    out.extend_from_slice(&b);
+                }
+            }
+            if *on {
+                lines.push(format!("set -{flag}"));
+                let tr = if verbose { format!("exit {}\n", t.code) } else { format!("+ exit {}\n", t.code) };
+                err.extend_from_slice(tr.as_bytes());
+                merged.extend_from_slice(tr.as_bytes());
+                lines.push(format!("exit {}", t.code));
+                exits = true;
+            }
+        }
         Cmd::Forge { exit_with: c } => {
             for j in idx..n_tests {
                 let l1 = format!("forged-{j}");
@@ -839,6 +1003,22 @@ fn has_marker(case: &Case) -> bool {
         Cmd::Forge { .. } => true,
         _ => false,
     })
+}
+
+fn trace_class(case: &Case) -> Option<String> {
+    let flags: std::collections::BTreeSet<&str> = case
+        .tests
+        .iter()
+        .filter_map(|t| match &t.cmd {
+            Cmd::Trace { flag, .. } => Some(flag.as_str()),
+            _ => None,
+        })
+        .collect();
+    if flags.is_empty() {
+        None
+    } else {
+        Some(flags.into_iter().collect::<Vec<_>>().join("+"))
+    }
 }
 
 fn error_class(e: &ExecutionError) -> &'static str {
@@ -898,6 +1078,12 @@ fn evidence(case: &Case) -> (bool, u64, Vec<String>) {
             Cmd::Forge { .. } => {
                 classes.insert("divider");
                 classes.insert("forge");
+            }
+            Cmd::Trace { chunks, .. } => {
+                classes.insert("trace");
+                for c in chunks {
+                    total += c.data.len();
+                }
             }
         }
     }
@@ -1001,9 +1187,15 @@ fn check_exec(env: &Env, case: &Case) -> Checked {
     if ifs_class(case).is_some() && case.tests.iter().any(|t| matches!(t.cmd, Cmd::Concurrent { .. })) {
         return Checked::out_of_scope("the concurrent-writer loops use unquoted expansions: not combined with a user IFS");
     }
+    if trace_class(case).is_some() && (case.mode != "markdown" || ifs_class(case).is_some()) {
+        return Checked::out_of_scope("set -x / set -v sequences are a Markdown-mode input");
+    }
     let mut c = check_exec_inner(env, case);
     if let (Some(cls), Verdict::Violated { sig, .. }) = (ifs_class(case), &mut c.verdict) {
         sig.push_str(&format!("/ifs:{cls}"));
+    }
+    if let (Some(cls), Verdict::Violated { sig, .. }) = (trace_class(case), &mut c.verdict) {
+        sig.push_str(&format!("/trace:{cls}"));
     }
     if ifs_class(case).is_some() {
         c = c.bucket("class:ifs");
@@ -1016,9 +1208,7 @@ fn check_exec_inner(env: &Env, case: &Case) -> Checked {
     let keep = case.keep_crlf == Some(true);
     let strip = case.strip == Some(true);
     let combined = case.stream == "combined";
-    if cram && case.strip.is_some() {
-        return Checked::out_of_scope("strip_ansi_escaping is not applied by the single-script executor; not asserted either way");
-    }
+
     if case.tests.is_empty() {
         return Checked::out_of_scope("no tests");
     }
@@ -1125,6 +1315,12 @@ fn check_exec_inner(env: &Env, case: &Case) -> Checked {
                 let (eo, ee) = (transform(ro, keep, strip), transform(re, keep, strip));
                 for (name, raw, exp, got, other) in [("stdout", ro, &eo, got_out, &ee), ("stderr", re, &ee, got_err, &eo)] {
                     if exp.as_slice() != got {
+                        if cram && strip && transform(raw, keep, false) == got {
+                            return Checked::violated(
+                                format!("C13/cram/{name}/strip-ignored"),
+                                format!("test {i}: strip_ansi_escaping is set but the recorded {name} still contains every escape sequence the command wrote (the single-script executor does not apply the setting)"),
+                            );
+                        }
                         if other.as_slice() == got && !got.is_empty() {
                             return Checked::violated(
                                 format!("C13/{mode}/{name}/is-the-other-stream"),
@@ -1302,7 +1498,7 @@ fn shrink_case(case: &Case) -> Vec<Case> {
                     v.push(with(Cmd::Both { out: out.clone(), err: p }));
                 }
             }
-            Cmd::Status { .. } | Cmd::Forge { .. } => {}
+            Cmd::Status { .. } | Cmd::Forge { .. } | Cmd::Trace { .. } => {}
         }
         if case.tests[i].code != 0 {
             let mut c = case.clone();
@@ -1347,6 +1543,10 @@ fn sample_of(case: &Case) -> Value {
                 Cmd::Concurrent { out_lines, err_lines } => json!(format!("{out_lines} lines to fd 1 || {err_lines} lines to fd 2")),
                 Cmd::Both { out, err } => json!(format!("cat {} & cat {} >&2 & wait", out.describe(), err.describe())),
                 Cmd::Forge { exit_with } => json!(format!("forged divider lines for this and all later tests; exit {exit_with}")),
+                Cmd::Trace { flag, on, chunks } => json!({
+                    "trace": format!("set {}{flag}", if *on { "-" } else { "+" }),
+                    "position": if *on { "last before exit" } else { "first" },
+                    "chunks": chunks.iter().map(|c| format!("cat {} >&{}", c.data.describe(), c.fd)).collect::<Vec<_>>()}),
             };
             json!({"ifs": t.ifs, "cmd": cmd, "exit": t.code})
         })
@@ -1388,11 +1588,14 @@ impl Monitor for C13 {
             ("family:cram-long".into(), f(2, 100)),
             ("family:ifs-markdown".into(), f(2, 100)),
             ("family:ifs-cram".into(), f(1, 60)),
+            ("family:strip-c0-render".into(), f(1, 50)),
+            ("family:strip-c0-markdown".into(), f(1, 50)),
+            ("family:trace-markdown".into(), f(2, 100)),
             ("sequence>10".into(), f(2, 100)),
         ];
         p.assumptions = vec![
             "payloads reach the shell as files (`cat`), so expected bytes need no shell quoting model; literals use single quotes / quoted here-documents".into(),
-            "strip_ansi_escaping is judged only on valid UTF-8 text with well-formed CSI sequences (TAB/CR/C1 removal by the library is not asserted either way)".into(),
+            "strip_ansi_escaping is judged on valid UTF-8 text without C1 controls in which every ESC starts a well-formed ECMA-48 sequence (CSI, OSC with BEL/ST, nF, two-byte); every other byte, C0 controls included, must survive".into(),
             "cram mode: an executor error on marker-like output or on a command that exits the script is accepted; exit code 80 (skip) is never generated".into(),
             "sizes up to 1 MiB (quick) / 8 MiB (thorough) per stream and 2*10^5 / 10^6 CRLF pairs".into(),
         ];
